@@ -20,7 +20,15 @@ The reference is itself a raw-string delivery, so for nt, tsv_spo and turtle_ite
 file holding the same text (key raw-vs-file).  If the raw N-Triples string disagrees with its file AND more rdflib-backed channels
 side with the file, the file output becomes the reference for the other channels of that graph (else every channel would be blamed).
 
+Every channel (the reference included) is also checked against the abstract graph: shape labels / references must be <shapes
+namespace><local name of a class>, rdf:type values classes of the graph, property IRIs predicates of the graph (key iri-mangled;
+a fifth of the graphs carries class, property and instance IRIs with raw non-ASCII characters).  Another fifth is additionally
+delivered as a Turtle document whose two halves bind the same prefix labels to different namespaces (key prefix-rebound; rdflib's
+Turtle reader gets the same document as a control).
+
 Finding keys
+    C08:iri-mangled:<channel>                            the output names IRIs that do not occur in the graph
+    C08:channel-differs:<turtle_iter|turtle>:prefix-rebound   only the document with re-bound prefix labels disagrees
     C08:channel-differs:raw-vs-file:<kind|crash>         raw_graph=<text> vs graph_file_input=<same text> (nt, tsv_spo, turtle_iter)
     C08:channel-differs:<channel>[:<compression>][:files=<n>]:<kind>
     C08:channel-crashes:<channel>[:<compression>][:files=<n>]
@@ -86,9 +94,42 @@ def _rdflib_graph(T):
     return g
 
 
-def render(fmt, T):
+_RE_LOCAL = None
+
+
+def render_rebound(T):
+    """House-style Turtle in two halves that bind the SAME prefix labels (nsa, nsb) to DIFFERENT namespaces, as `cat a.ttl b.ttl`
+    would: first half nsa=ex / nsb=other, second half nsa=other / nsb=ex.  IRIs of those namespaces with a plain local name are
+    written as prefixed names, everything else as in N-Triples."""
+    import re
+    M, S, G = U.lib()
+    global _RE_LOCAL
+    if _RE_LOCAL is None:
+        _RE_LOCAL = re.compile(r"^[^\W\d]\w*$", re.U)
+
+    def tok(x, binding):
+        iri = x.iri if isinstance(x, M.IRI) else (x if isinstance(x, str) else None)
+        if iri is None:
+            return M.node_to_nt(x)
+        for ns, label in binding:
+            if iri.startswith(ns) and _RE_LOCAL.match(iri[len(ns):]):
+                return "%s:%s" % (label, iri[len(ns):])
+        return "<%s>" % iri
+    half = len(T) // 2
+    out = []
+    for part, binding in ((T[:half], ((G.EX, "nsa"), (G.OTHER, "nsb"))), (T[half:], ((G.OTHER, "nsa"), (G.EX, "nsb")))):
+        out.append("".join("@prefix %s: <%s> .\n" % (label, ns) for ns, label in binding) + "\n")
+        for (s, p, o) in part:
+            out.append("%s %s %s .\n" % (tok(s, binding), "<%s>" % p if p == M.RDF_TYPE else tok(p, binding), tok(o, binding)))
+        out.append("\n")
+    return "".join(out)
+
+
+def render(fmt, T, rebind=False):
     """Text of the triples T in the given input format."""
     M, S, G = U.lib()
+    if rebind and fmt in ("turtle", "turtle_iter"):
+        return render_rebound(T)
     if fmt == "nt":
         return M.to_ntriples(T)
     if fmt == "tsv_spo":                                 # N-Triples tokens separated by tabs, no final dot
@@ -125,9 +166,9 @@ def deliver(variant, T, tmpdir):
     if how == "graph":
         return {"rdflib_graph": _rdflib_graph(T), "input_format": "turtle"}
     if how == "raw":
-        return {"raw_graph": render(fmt, T), "input_format": fmt}
+        return {"raw_graph": render(fmt, T, variant.get("rebind")), "input_format": fmt}
     parts = variant.get("parts") or [list(range(len(T)))]
-    texts = [render(fmt, [T[i] for i in part]) for part in parts]
+    texts = [render(fmt, [T[i] for i in part], variant.get("rebind")) for part in parts]
     base = os.path.join(tmpdir, "v%d" % variant.get("id", 0))
     os.makedirs(base, exist_ok=True)
     kw = {"input_format": fmt}
@@ -207,7 +248,9 @@ def run_variant(R, variant, T, cfg, t, tmpdir):
     try:
         return U.norm_doc(e.P.parse_shexc(text))
     except e.P.ShexcParseError as exc:
-        raise U.Skipped("unparsable-output: %s" % exc.msg)
+        sk = U.Skipped("unparsable-output: %s" % exc.msg)
+        sk.text = text
+        raise sk
 
 
 def canon(nd):
@@ -277,6 +320,62 @@ def difference(ref, nd, T, cfg, t):
     return "figures", "shape %s: lines only in reference %r, only in channel %r" % (first[0][0], only_a[:3], only_b[:3])
 
 
+def unexpected_iris(nd, T, cfg):
+    """IRIs of an output that the abstract graph cannot explain: shape labels / shape references that are not
+    <shapes namespace><local name of a class>, rdf:type values that are no class of the graph, property IRIs that are no predicate."""
+    M, S, G = U.lib()
+    pi = cfg.get("instantiation_property", M.RDF_TYPE)
+    classes = set(o.iri for (s, p, o) in T if p == pi and isinstance(o, M.IRI)) | set(cfg.get("target_classes") or [])
+    labels = set(U.label_of(C) for C in classes)
+    preds = set(p for (s, p, o) in T)
+    bad = []
+
+    def values(v):
+        if v is None:
+            return
+        if v[0] == "or":
+            for x in v[1]:
+                for y in values(x):
+                    yield y
+        else:
+            yield v
+    for sh in nd:
+        if sh["label"] not in labels:
+            bad.append(("shape label", sh["label"]))
+        for c in sh["cons"]:
+            if c["p"] not in preds:
+                bad.append(("property", c["p"]))
+            for v in [x for x in values(c["value"])] + [x for k in c["comments"] for x in values(k["value"])]:
+                if v[0] == "shape" and v[1] not in labels:
+                    bad.append(("shape reference", v[1]))
+                elif v[0] == "valueset" and c["p"] == pi and v[1] not in classes:
+                    bad.append(("rdf:type value", v[1]))
+    return U.dedup(bad)
+
+
+def unexpected_tokens(text, T):
+    """For an output that lib/shexc_parse rejects: its non-ASCII tokens whose local name occurs nowhere in the graph."""
+    import re
+    M = U.lib()[0]
+    known = set()
+    for (s, p, o) in T:
+        known.add(p)
+        for x in (s, o):
+            if isinstance(x, M.IRI):
+                known.add(x.iri)
+            elif M.is_literal(x) and x.dt:
+                known.add(x.dt)
+    locals_ = set(U.local_name(i) for i in known)
+    bad = []
+    for tok in re.findall(r"[^\s\[\]@;]+", text):
+        if max(tok) > "\x7f":
+            core = tok.strip("<>.,")
+            local = U.local_name(core) if core.startswith("http") else core.split(":")[-1]
+            if core not in known and local not in locals_:
+                bad.append(("token of an unparsable output", core))
+    return U.dedup(bad)
+
+
 def _same_delivery(v, **changes):
     w = dict(v)
     w.update(changes)
@@ -303,7 +402,7 @@ def check_case(case, R):
 
         def plain(fmt, how):
             for j, w in enumerate(case["variants"]):
-                if w["fmt"] == fmt and w["how"] == how and not w.get("comp") and not w.get("parts"):
+                if w["fmt"] == fmt and w["how"] == how and not w.get("comp") and not w.get("parts") and not w.get("rebind"):
                     return j
             return None
 
@@ -340,6 +439,27 @@ def check_case(case, R):
             if isinstance(ref, U.Skipped) or votes_file > votes_raw:
                 ref, ref_variant, ref_name = outs[fi], {"fmt": "nt", "how": "file"}, "N-Triples file (the raw string disagrees with it)"
                 R.stats["reference_switched_to_file"] += 1
+        # every channel against the abstract graph: the line-based channels (reference included) could mangle IRIs together
+        mangled = {}
+        for i, v in enumerate(case["variants"]):
+            if isinstance(outs[i], U.Skipped):
+                bad = unexpected_tokens(outs[i].text, T) if getattr(outs[i], "text", None) else []
+            else:
+                bad = unexpected_iris(outs[i], T, cfg)
+            if bad:
+                mangled[i] = bad
+                R.emit("C08:iri-mangled:%s" % channel_name(v),
+                       "channel %s (compression %s, %d file(s)) prints IRIs that do not occur in the graph: %s"
+                       % (channel_name(v), v.get("comp"), n_files(v), "; ".join("%s <%s>" % b for b in bad[:4])),
+                       dict(case, variants=[v]), observed=[list(b) for b in bad[:6]])
+        if (unexpected_tokens(ref.text, T) if getattr(ref, "text", None) else []) if isinstance(ref, U.Skipped) \
+                else unexpected_iris(ref, T, cfg):
+            sane = [j for j, w in enumerate(case["variants"]) if w["fmt"] not in LINE_FORMATS and not w.get("rebind")
+                    and not isinstance(outs[j], U.Skipped) and j not in mangled]
+            sane.sort(key=lambda j: (case["variants"][j]["how"] != "graph", j))
+            if sane:                                    # do not blame the sane channels for differing from a mangled reference
+                ref, ref_name = outs[sane[0]], "channel %s (the raw N-Triples output has mangled IRIs)" % channel_name(case["variants"][sane[0]])
+                R.stats["reference_switched_to_rdflib"] += 1
         if isinstance(ref, U.Skipped):
             R.crashes["reference: " + ref.signature] += 1
             return
@@ -379,7 +499,7 @@ def check_case(case, R):
             """does the format agree with the reference for (one file | nf files) with the given compression?  None: not run"""
             for j, w in enumerate(case["variants"]):
                 if w["fmt"] == fmt and w["how"] in ("file", "files") and w.get("comp") == comp and n_files(w) == nf \
-                        and (nf == 1) == (w["how"] == "file"):
+                        and (nf == 1) == (w["how"] == "file") and not w.get("rebind"):
                     return status[j] is None or status[j][1] == "tie"       # a tie is no evidence against the format
             return None
 
@@ -388,6 +508,22 @@ def check_case(case, R):
             if st is None:
                 continue
             if v["how"] == "raw" and v["fmt"] in raw_blamed:     # already reported as raw-vs-file
+                continue
+            if i in mangled:                                     # already reported as iri-mangled
+                continue
+            if v.get("rebind"):
+                twin = [j for j, w in enumerate(case["variants"]) if not w.get("rebind") and
+                        all(w.get(k) == v.get(k) for k in ("fmt", "how", "comp", "parts"))]
+                twin_ok = not twin or status[twin[0]] is None or status[twin[0]][1] == "tie"
+                if st[0] == "differs" and st[1] == "tie":
+                    R.emit("C08:channel-differs:%s:tie" % v["fmt"], "channel %s with re-bound prefixes: %s" % (v["fmt"], st[2]),
+                           dict(case, variants=[v]))
+                elif twin_ok:
+                    R.emit("C08:channel-differs:%s:prefix-rebound" % v["fmt"],
+                           "channel %s reading a Turtle document whose second half binds the prefix labels nsa/nsb to the other "
+                           "namespace (same local names before and after) %s; the same delivery with full IRIs agrees with the "
+                           "reference (%s): %s" % (channel_name(v), "raises " + st[1] if st[0] == "crashes" else "yields other shapes",
+                                                  ref_name, st[2]), dict(case, variants=[v]))
                 continue
             name = channel_name(v)
             comp, nf = v.get("comp"), n_files(v)
@@ -502,6 +638,42 @@ def _add_separators_and_languages(T, rng):
     return U.dedup(out)
 
 
+def _add_non_ascii_iris(T, rng):
+    """Class, property and instance IRIs with raw non-ASCII characters (legal in RDF 1.1 IRIs; written raw in UTF-8)."""
+    M, S, G = U.lib()
+    typed = U.dedup([s for (s, p, o) in T if p == M.RDF_TYPE and isinstance(s, M.IRI)])
+    classes = U.dedup([o for (s, p, o) in T if p == M.RDF_TYPE])
+    nino, zurich, east = M.IRI(G.EX + u"Ni\u00f1o"), M.IRI(G.EX + u"Z\u00fcrich"), M.IRI(G.OTHER + u"\u6771\u4eac")
+    prenom, strasse = G.EX + u"pr\u00e9nom", G.OTHER + u"stra\u00dfe_\u540d"
+    out = list(T)
+    out += [M.Triple(zurich, M.RDF_TYPE, nino), M.Triple(zurich, prenom, M.Lit("x")), M.Triple(east, M.RDF_TYPE, nino),
+            M.Triple(east, strasse, zurich)]
+    if classes:
+        out.append(M.Triple(zurich, M.RDF_TYPE, classes[0]))
+    for s in typed[:2]:
+        out.append(M.Triple(s, prenom, M.Lit(u"Jos\u00e9")))
+        if rng.random() < 0.5:
+            out.append(M.Triple(s, strasse, east))
+    out = U.dedup(out)
+    rng.shuffle(out)
+    return out
+
+
+def _add_twins(T, rng):
+    """The same local names in both namespaces, the twins in the second half of the document (for the re-bound prefixes)."""
+    M, S, G = U.lib()
+    first = list(T)
+    twins = []
+    for (s, p, o) in T:
+        for a, b in ((G.EX, G.OTHER), (G.OTHER, G.EX)):
+            if p.startswith(a) and p != M.RDF_TYPE and "/" not in p[len(a):] and "#" not in p[len(a):] and len(twins) < 4:
+                twins.append(M.Triple(s, b + p[len(a):], M.Lit("twin") if len(twins) % 2 else M.Lit("7", dt=M.XSD_INTEGER)))
+    second = U.dedup([t for t in twins if t not in first])
+    while len(second) < len(first):                      # keep the twins in the second half
+        second.append(M.Triple(M.IRI(G.EX + "pad%d" % len(second)), G.EX + "padding", M.Lit("x")))
+    return U.dedup(first + second)
+
+
 def gen_cases(tier, seed):
     M, S, G = U.lib()
     rng = random.Random("C08|%s|%s" % (tier, seed))
@@ -516,8 +688,18 @@ def gen_cases(tier, seed):
             T = _add_tricky(T, rng)
         if gi % 4 == 0 or gi % 8 == 2:
             T = _add_separators_and_languages(T, rng)
+        if gi % 5 == 1:
+            T = _add_non_ascii_iris(T, rng)
+        rebind = gi % 5 == 3
+        if rebind:
+            T = _add_twins(T, rng)
+        variants = _variants(rng, len(T), FORMATS)
+        if rebind or gi % 5 == 1:
+            variants += [{"fmt": "turtle_iter", "how": "raw", "rebind": True}, {"fmt": "turtle_iter", "how": "file", "rebind": True},
+                         {"fmt": "turtle_iter", "how": "file", "comp": "gz", "rebind": True},
+                         {"fmt": "turtle", "how": "file", "rebind": True}, {"fmt": "turtle", "how": "raw", "rebind": True}]
         cases.append({"family": "iri", "origin": origin, "nt": U.to_nt(T), "cfg": modes[gi % 3], "t": (0, 0, 0.5)[gi % 3],
-                      "variants": _variants(rng, len(T), FORMATS)})
+                      "variants": variants})
     fam = [("enum-bnode", T) for T in U.enum_small(n_bn // 3, "bnode")]
     for i in range(n_bn - n_bn // 3):
         fam.append(("random-bnode", U.rand_graph(rng, n_nodes=rng.randint(3, 8), n_triples=rng.randint(4, 20), n_classes=rng.randint(2, 3),
@@ -535,6 +717,8 @@ RULE = ("one evaluation = one fresh Shaper run on one delivery of the graph. Eve
         "comments (prefixes expanded, order ignored; instances_report_mode='mixed'). Differences that concern only the choice among "
         "equally frequent shape references are reported with kind 'tie'. Graphs with blank nodes: only nt, tsv_spo, turtle_iter and the "
         "rdflib Graph object. For nt/tsv_spo/turtle_iter the raw string is also compared with the file holding the same text (raw-vs-file). "
+        "Every output is checked against the abstract graph (labels, rdf:type values, property IRIs: iri-mangled); a fifth of the graphs has "
+        "non-ASCII class/property/instance IRIs, another fifth is also delivered as Turtle whose halves re-bind the same prefix labels. "
         "URLs are impossible offline: skipped. A channel that raises while the reference does not is reported as "
         "C08:channel-crashes and counted in skipped_crashes.")
 
@@ -711,7 +895,43 @@ def _mutants():
         rs.RawStringLineReader.read_lines = read_lines
         return lambda: setattr(rs.RawStringLineReader, "read_lines", old)
 
-    return [("RawStringLineReader.read_lines uses splitlines()", "C08:channel-differs:raw-vs-file:", raw_reader_splitlines),
+    def iri_unicode_escape():
+        import shexer.io.graph.yielder.nt_triples_yielder as m1
+        import shexer.io.graph.yielder.tsv_nt_triples_yielder as m2
+        import shexer.io.graph.yielder.big_ttl_triples_yielder as m3
+        saved = []
+
+        def wrap(fn):
+            def tuned(a_token, *a, **kw):
+                if a_token.startswith("<") and a_token.endswith(">"):       # 'decodes \\uXXXX', mangles raw non-ASCII
+                    a_token = a_token.encode("utf-8").decode("unicode_escape")
+                return fn(a_token, *a, **kw)
+            return tuned
+        for mod in (m1, m2, m3):
+            for name in ("tune_subj", "tune_token", "tune_prop"):
+                if hasattr(mod, name):
+                    saved.append((mod, name, getattr(mod, name)))
+                    setattr(mod, name, wrap(getattr(mod, name)))
+        return lambda: [setattr(mod, name, fn) for mod, name, fn in saved]
+
+    def prefixed_name_memo():
+        import shexer.io.graph.yielder.big_ttl_triples_yielder as m3
+        old = m3.BigTtlTriplesYielder._parse_elem
+
+        def _parse_elem(self, raw_elem):
+            if ":" not in raw_elem or raw_elem[0] in '<"_':
+                return old(self, raw_elem)
+            memo = self.__dict__.setdefault("_pname_memo", {})            # never cleared by a later @prefix
+            if raw_elem not in memo:
+                memo[raw_elem] = old(self, raw_elem)
+            return memo[raw_elem]
+        m3.BigTtlTriplesYielder._parse_elem = _parse_elem
+        return lambda: setattr(m3.BigTtlTriplesYielder, "_parse_elem", old)
+
+    return [("the line readers decode IRIs with unicode_escape (raw non-ASCII becomes mojibake)", "C08:iri-mangled:", iri_unicode_escape),
+            ("turtle_iter memoises prefixed names across a second @prefix for the same label", "C08:channel-differs:turtle_iter:prefix-rebound",
+             prefixed_name_memo),
+            ("RawStringLineReader.read_lines uses splitlines()", "C08:channel-differs:raw-vs-file:", raw_reader_splitlines),
             ("the multi-file yielder skips the last file / archive member", ":files=", skip_last_file),
             ("the rdflib yielder reports every literal as xsd:string", "C08:channel-differs:turtle", every_literal_a_string)]
 
